@@ -18,7 +18,7 @@ from vlib.rtc import eng, gen, fn
 
 _col = gen._col
 REJECT = "REJECT"
-DEFAULTS = {"a": "", "b": 0, "e": None}
+DEFAULTS = {"a": "", "b": 0, "e": ""}
 
 # ------------------------------------------------------------------------------------------------
 # reference implementation (from the docstring of BulkAddOrUpdateRecord and the statement)
@@ -175,7 +175,11 @@ def _new(table, empty_col=False):
 def _rows(e):
   td = e.fetch_table("T")
   cols = [c for c in ("a", "b", "e") if c in td.columns]
-  return [dict([("id", r)] + [(c, td.columns[c][i]) for c in cols]) for i, r in enumerate(td.row_ids)]
+  # an empty cell of the empty column reads None before and '' after the column has been given
+  # its first value (it becomes a Text data column): both are "no value"
+  blank = lambda c, v: "" if (c == "e" and v is None) else v
+  return [dict([("id", r)] + [(c, blank(c, td.columns[c][i])) for c in cols])
+          for i, r in enumerate(td.row_ids)]
 
 
 def _restore(e, table, empty_col=False):
